@@ -20,7 +20,8 @@ ASSUMPTIONS = ["an instance is counted by its own start log (one u.start per con
                "vp/model.py for behaviour", "g++-12 -O1 build of the working tree with harness-side shims"]
 FLOORS = {"order_pairs_compared": {"quick": 400, "thorough": 6000}, "shared_duplicates": {"quick": 150, "thorough": 2500},
           "distinct_near_duplicates": {"quick": 150, "thorough": 2500}, "duplicated_sinks": {"quick": 100, "thorough": 1500},
-          "delayed_reroutes": {"quick": 100, "thorough": 1500}, "packed_parameter_near_duplicates": {"quick": 100, "thorough": 1500}}
+          "delayed_reroutes": {"quick": 100, "thorough": 1500}, "packed_parameter_near_duplicates": {"quick": 100, "thorough": 1500},
+          "shared_nodes_with_two_error_captures": {"quick": 60, "thorough": 1000}, "captured_error_values_compared": {"quick": 60, "thorough": 1000}}
 BATCH = 24
 
 
@@ -121,6 +122,31 @@ def canon_key(inst, memo):
     return k
 
 
+def add_error_capture_twice(rng, case):
+    """Error capture requested twice on ONE node instance (two requests on the same port, in either statement order) with
+    different levels of detail; whichever request is wired first, both error outputs must report the merged detail."""
+    main = case.graphs["main"]
+    uses = {}
+    for g in case.graphs.values():
+        for st in g:
+            if st.uid() is not None:
+                uses[st.uid()] = uses.get(st.uid(), 0) + 1
+    # the fault plan addresses a definition by its uid: only a node that is wired exactly once (no duplicates of any kind)
+    cands = [st for st in main if st.op in ("pass", "add2", "add3", "acc", "count") and st.dst and uses.get(st.uid()) == 1]
+    if not cands:
+        return 0
+    x = rng.choice(cands)
+    u = 1 + max([s.uid() or 0 for g in case.graphs.values() for s in g] + [0])
+    weak, strong = dict(depth=rng.choice([0, 1]), values=0), dict(depth=rng.choice([2, 3]), values=1)
+    main.append(S("ec1_", "err", x.dst, **weak))
+    main.append(S("ec2_", "err", x.dst, **strong))
+    main.append(S("", "recerr", "ec1_", uid=u))
+    main.append(S("", "recerr", "ec2_", uid=u + 1))
+    case.faults = [(x.uid(), "eval", o) for o in sorted(rng.sample(range(1, 8), 2))]
+    case.meta["errtwice"] = x.uid()
+    return 1
+
+
 def pick_alias(rng, alias, a):
     pas = a.startswith("~")
     n = a[1:] if pas else a
@@ -181,6 +207,7 @@ def generate(rng, tier, seed):
         base = gen_case(rng, f"c06_{seed}_{k}", n_nodes=rng.choice([4, 7, 12, 20]), max_depth=1)
         expect = add_duplicates(rng, base)
         base.meta["packed"] = add_packed_family(rng, base, expect) if k % 3 == 0 else 0
+        base.meta["errtwice_n"] = add_error_capture_twice(rng, base) if k % 4 == 1 else 0
         # a near-duplicate that differs in one input NAME may still read the same port (pass-through sub-graphs, a call that
         # passes one port twice): then the two wirings are exact duplicates and sharing is permitted
         try:
@@ -211,6 +238,7 @@ def generate(rng, tier, seed):
             c.meta["skip_uids"] = base.meta["skip_uids"]
             c.meta["expect"] = base.meta["expect"]
             c.meta["packed"] = base.meta["packed"]
+            c.meta["errtwice_n"] = base.meta["errtwice_n"]
             c.meta["order"] = j
             cases.append(c)
     return cases
@@ -229,9 +257,16 @@ def check(case, tr):
         res.violations.append(Violation(f"run failed: {run.error}"))
         return res
     flat = M.flatten(case)
-    mr = M.simulate(flat)
+    cap = {case.meta["errtwice"]} if case.meta.get("errtwice") is not None else ()
+    mr = M.simulate(flat, captured=cap)
     mism = compare_runs(case, run, mr)
     known_dev = False
+    if mism and cap:
+        for flags in ({"emulate_sampled_start": True}, {"emulate_stale": True}, {"emulate_sampled_start": True, "emulate_stale": True}):
+            mr2 = M.simulate(flat, captured=cap, **flags)
+            if (mr2.stale or mr2.sampled or mr2.stale_armed) and not compare_runs(case, run, mr2):
+                mr, mism, known_dev = mr2, [], True
+                break
     if mism:
         mr, vs = classify_with_emulations(case, flat, run, mism)
         res.violations += vs
@@ -273,6 +308,13 @@ def check(case, tr):
         if ue.uid in skip:
             continue
         streams.setdefault(ue.uid, set()).add((ue.t, ue.out, tuple(ue.ins)))
+    # captured error values (time, message, complete error value) are output streams too
+    err_events = 0
+    for seq, kind, tk in run.events:
+        if kind == "u.err":
+            # (node indices inside a back trace are ranks, which legitimately depend on the statement order)
+            streams.setdefault(("err", int(tk[0])), set()).add((int(tk[3]), tuple(re.sub(r"\[\d+\]", "[]", x) for x in tk[5:])))
+            err_events += 1
     grp = _groups.setdefault(case.meta["group"], [])
     pairs = 0
     for other_order, other_nodes, other_streams, other_dev, other_starts, other_text in grp:
@@ -285,6 +327,7 @@ def check(case, tr):
     grp.append((case.meta["order"], nodes, streams, known_dev, starts, res.signature))
     res.counters = {"order_pairs_compared": pairs, "shared_duplicates": shared, "distinct_near_duplicates": distinct,
                     "duplicated_sinks": sinks, "delayed_reroutes": case.meta.get("reroutes", 0), "runs_compared": len(mr.runs),
-                    "packed_parameter_near_duplicates": case.meta.get("packed", 0)}
+                    "packed_parameter_near_duplicates": case.meta.get("packed", 0),
+                    "shared_nodes_with_two_error_captures": case.meta.get("errtwice_n", 0), "captured_error_values_compared": err_events}
     res.nontrivial = (shared + distinct + sinks) >= 1 and pairs >= 1
     return res
